@@ -599,6 +599,18 @@ def dup_check_problems(prog: Program, f: FuncInfo) -> List[Tuple[int, str]]:
             if ckd.subject == idv:
                 out.append((n.line, f'ids are skipped from the duplicate check under `{norm(g.src.ast)}` ({g.label}): only a None id (notification) '
                             f'may be skipped — the ids 0 and "" are legitimate and must be checked for duplicates'))
+    # every id is examined: the loop over the ids ends only by exhaustion or by raising
+    h_ = heads[0]
+    body0 = [e.dst for e in cfg.succ[h_.id] if e.label == 'body']
+    if body0:
+        fwd = {body0[0].id} | cfg.reachable(body0[0], avoid_nodes=[h_])
+        in_loop = {i for i in fwd if i != h_.id and h_.id in cfg.reachable(cfg.nodes[i])}
+        for u_id in sorted(in_loop):
+            for e in cfg.succ[u_id]:
+                if e.label == 'exc' or e.dst is h_ or e.dst.id in in_loop or e.dst.kind == 'raise' or isinstance(e.dst.ast, ast.Raise):
+                    continue
+                out.append((e.dst.line, f'`{norm(e.dst.ast)[:50]}` leaves the loop over the ids before every id was examined: the ids that follow '
+                            f'(e.g. after a null id) are never compared, so a later duplicate is accepted'))
     raises = [n for n in cfg.stmt_nodes() if isinstance(n.ast, ast.Raise) and 'IdentityError' in norm(n.ast)]
     ok = False
     for n in raises:
